@@ -111,11 +111,13 @@ func ParseTime(v string) (Time, error) {
 	if err != nil {
 		return Time{}, err
 	}
-	t = t.Round(DatePrecision)
-	// time.Parse is more lenient than RFC 3339 (it lets the offset "+24:60" through) and rounding can leave
-	// year 9999: Format would then print "+25:00" or a five digits year, which time.Parse refuses, so a log
-	// holding such a timestamp could never be read back.
-	if _, offset := t.Zone(); t.Year() > 9999 || offset <= -25*60*60 || offset >= 25*60*60 {
+	// Keep the instant, not the offset the client wrote it with: the text printed by Format ends up in the
+	// stored log and in query arguments, where PostgreSQL casts it to "timestamp without time zone" and
+	// ignores the offset.
+	t = t.Round(DatePrecision).UTC()
+	// Rounding and the conversion to UTC can leave the years 0000-9999: Format would then print a signed or a
+	// five digits year, which time.Parse refuses, so a log holding such a timestamp could never be read back.
+	if t.Year() < 0 || t.Year() > 9999 {
 		return Time{}, errors.New("timestamp out of range")
 	}
 	return Time{
